@@ -223,6 +223,15 @@ def obligations(tier, seed):
     for ci, over in enumerate(({"param_identifier_size": 7}, {"param_k": 16, "param_identifier_size": 15})):
         obs.append(ob("c05.CGKO06.SSE1.straddle%d" % ci, "harness.c05", "h_shape",
                       {"scheme": "CGKO06.SSE1", "over": over, "a": 1, "seed": seed, "max_n1": 2}, budget_s=400))
+    # the second configuration of every scheme (other key / label / block lengths, e.g. ANSS16 with l != l') also in
+    # the quick tier, on two profile families
+    if tier == "quick":
+        for scheme in PL.SCHEMES:
+            if len(CONFIGS[scheme]) > 1:
+                for a in (1, 3):
+                    obs.append(ob("c05.%s.cfg1.a%d" % (scheme, a), "harness.c05", "h_shape",
+                                  {"scheme": scheme, "over": CONFIGS[scheme][1], "a": a, "seed": seed, "max_n1": 3},
+                                  budget_s=400))
     # identifier sizes on a cipher-block boundary (PKCS7 adds a whole block at 16, 32), after the process has
     # already built an index with the small default identifier size (no length may be remembered across objects)
     for scheme in PL.SCHEMES:
